@@ -265,7 +265,7 @@ def h_negpow(E, which, expo, enabled):
     return 'value'
 
 
-FUNCTION_SCALARS = ['cos(0)+[1,2,3]', '[1,2,3]+cos(0)', 'abs(x)/v', 'sqrt(4)^A', 'exp(0)-A', 'A-exp(0)', 'norm(v)+v', 'max(1,2)+v', 're(3)/v', 'kronecker(1,1)+v', 'x+v', 'y+v', '2/A',
+FUNCTION_SCALARS = ['v^0.5', 'A^0.5', 'A^(1/2)', 'v^(2^-1)', 'A^(3-2.5)', '[[1,2,3],[4,5,6]]^0.5', 'A^1.5', 'A^0.25', 'A^-0.5', 'v^(1/2)', '(A*A)^0.5', 'A^(0.5+0)', 'cos(0)+[1,2,3]', '[1,2,3]+cos(0)', 'abs(x)/v', 'sqrt(4)^A', 'exp(0)-A', 'A-exp(0)', 'norm(v)+v', 'max(1,2)+v', 're(3)/v', 'kronecker(1,1)+v', 'x+v', 'y+v', '2/A',
                     'trace(A)+A', 'det(A)^v', 'cos(0)*v', 'v*cos(0)', 'v/cos(0)', 'A^cos(0)', 'cos(0)+0*v', 'abs(x)^2*v', 'A*sqrt(4)', '0*cos(0)+v', 'sin(0)+v']
 FUNCTION_SCALARS_OK = {'cos(0)*v', 'v*cos(0)', 'v/cos(0)', 'A^cos(0)', 'abs(x)^2*v', 'A*sqrt(4)', '0*cos(0)+v', 'sin(0)+v'}
 
